@@ -42,13 +42,15 @@ pub struct FiModel {
     pub truth: HashMap<u64, u64>,
     pub total: u64,
     pub sizes: HashSet<usize>,
+    /// the size this sketch itself was configured with (merging never changes it)
+    pub own_size: usize,
 }
 
 impl FiModel {
     pub fn new(size: usize) -> FiModel {
         let mut sizes = HashSet::new();
         sizes.insert(size);
-        FiModel { truth: HashMap::new(), total: 0, sizes }
+        FiModel { truth: HashMap::new(), total: 0, sizes, own_size: size }
     }
     pub fn add(&mut self, i: u64, w: u64) {
         *self.truth.entry(i).or_insert(0) += w;
@@ -78,9 +80,10 @@ pub fn check_fi<T: Item>(ctx: &mut Ctx, sk: &FrequentItemsSketch<T>, model: &FiM
     if sk.total_weight() != model.total {
         ctx.violation("total_weight != exact stream weight", format!("{}: {} want {}", tag, sk.total_weight(), model.total));
     }
-    if model.sizes.len() == 1 {
-        // documented: capacity = 0.75 * max_map_size, epsilon = 3.5 / max_map_size (the size is at least 8)
-        let size = (*model.sizes.iter().next().unwrap()).max(8);
+    {
+        // documented: capacity = 0.75 * max_map_size, epsilon = 3.5 / max_map_size (the size is at least 8); a
+        // sketch keeps its own configuration whatever was merged into it
+        let size = model.own_size.max(8);
         if sk.maximum_map_capacity() != size * 3 / 4 || !rt::rel_close(sk.epsilon(), 3.5 / size as f64, 1e-12) {
             ctx.violation(
                 "maximum_map_capacity / epsilon do not follow from the configured map size",
@@ -317,6 +320,21 @@ fn run_typed<T: Item>(ctx: &mut Ctx, case: &Json) {
         fp.u64(model.total);
         fp.u64(sk.maximum_error());
         sketches.push((sk, model));
+    }
+    // sometimes everything is merged into a fresh, never updated receiver of another size
+    if rng.chance(0.2) {
+        let size = 1usize << pick_lg_size(&mut rng);
+        sketches.push((FrequentItemsSketch::new(size), FiModel::new(size)));
+        let last = sketches.len() - 1;
+        sketches.swap(0, last);
+        while sketches.len() > 1 {
+            let (sa, ma) = sketches.pop().unwrap();
+            let (sb, mb) = &mut sketches[0];
+            sb.merge(&sa);
+            mb.merge(&ma);
+            ctx.cover("merges_into_fresh_receiver");
+            check_fi(ctx, sb, mb, &items, &format!("after merge into a fresh receiver of size {} [{}]", size, descr.join(" | ")), &mut rng);
+        }
     }
     // merge tree: fold in random order, sometimes pairwise first
     while sketches.len() > 1 {
